@@ -8,6 +8,8 @@ import VirtioVerif.Model.Config
 import VirtioVerif.Model.PciBus
 import VirtioVerif.Model.PciCap
 import VirtioVerif.Model.VsockConn
+import VirtioVerif.Model.Console
+import VirtioVerif.Model.EventQueues
 /-!
 Native line-protocol driver over all models: one request line in, one reply line out.
 `case …` lines reset per-case state and are echoed as `case`.
@@ -21,6 +23,8 @@ structure World where
   net : Option Net.W := none
   pci : Option PciCap.Transport := none
   vsock : VsockConn.World := {}
+  con : Console.PState := Console.PState.empty
+  evq : EventQueues.PState := EventQueues.PState.empty
 
 def World.fresh : World := {}
 
@@ -39,6 +43,8 @@ def step (w : World) (line : String) : World × String :=
     let (t, o) := PciCap.handle w.pci op (Proto.parseArgs rest)
     ({ w with pci := t }, o)
   | "vsock" :: op :: rest => let (v, o) := VsockConn.handle w.vsock op (Proto.parseArgs rest); ({ w with vsock := v }, o)
+  | "evq" :: op :: rest => let (c, o) := EventQueues.handle w.evq op (Proto.parseArgs rest); ({ w with evq := c }, o)
+  | "con" :: op :: rest => let (c, o) := Console.handle w.con op (Proto.parseArgs rest); ({ w with con := c }, o)
   | _ => (w, "bad-op")
 
 partial def loop (h : IO.FS.Stream) (out : IO.FS.Stream) (w : World) : IO Unit := do
